@@ -56,6 +56,15 @@ Lemma k7_pre_refuted_l : snapshot_ok w_k7 (mrun_pre w_k7) = false /\ snapshot_ok
   /\ c01_fails w_k7 (mrun w_k7) = [].
 Proof. vm_compute. repeat split. Qed.
 
+(** GrafeoDB::delete_node detaches since 109e5bf (not a finding of these properties; the specification follows the
+    documented behaviour): the pre-repair transcription leaves the edge, the current model deletes it *)
+Definition w_db_delete : list op :=
+  [CreateNode 9 [] []; CreateNode 9 [] []; CreateEdge 9 0 1 0; DbDeleteNode 1; Read 9 (GetEdge 0); Read 9 (Neigh 0 Out)].
+Lemma db_delete_pre_refuted_l :
+  snapshot_ok w_db_delete (mrun_pre w_db_delete) = false /\ snapshot_ok w_db_delete (mrun w_db_delete) = true
+  /\ nth 4 (mrun_pre w_db_delete) OErr = OEdge (Some (0, 1, 0)) /\ nth 4 (mrun w_db_delete) OErr = OEdge None.
+Proof. vm_compute. repeat split. Qed.
+
 (** histories outside every class, with reads strictly inside another session's open transaction *)
 Definition w_clean_later_starter : list op :=
   [CreateNode 9 [0] []; Begin 1; Begin 2; Commit 2; Begin 0; CreateNode 0 [0] [(0, Some 3)]; Read 1 (LabelScan 0);
